@@ -3,6 +3,26 @@
 import json, sys
 
 CHECKS = {
+ "C01": dict(
+   technique="differential testing against an independent reference decoder over generated valid documents, labelled faults and byte/line/digit mutants (proptest-driven, shrinking); cross-front-end agreement",
+   text="Generated valid documents must be accepted, labelled faults rejected, and ~1M (quick) / 20M (thorough) mutants of generated and corpus documents get the verdict of an independent TOML 1.0.0 reference decoder; all four front ends must agree. Sampled exploration with an explicit oracle; U1/limit classes skipped and counted.",
+   note="trusts the harness' reference decoder, re-calibrated on all 562 toml-test 1.0.0 fixtures at every run (exit 2 on disagreement)",
+   design="4/C01"),
+ "C02": dict(
+   technique="tree-first generation with by-construction expected tree (proptest over choice tapes), exact model comparison across six decoding entry points",
+   text="A generated tree rendered in a generated spelling is decoded by ImDocument, DocumentMut, toml::Value, toml::Table, toml_edit::de::from_str/from_slice and compared exactly (float bits, key order) with the tree it was rendered from; 191 valid fixtures against their expected trees; mutated/corpus documents are compared with the reference inside C01's differential.",
+   note="expected values come from the harness' renderer (exact decimal re-spellings of std's shortest float digits); reference decoder must agree with the renderer (exit 2 otherwise)",
+   design="4/C02"),
+ "C03": dict(
+   technique="round-trip (parse then print) against a by-construction normalised text; metamorphic fixed-point and data-equality oracles; proptest-driven",
+   text="Adjacent mode: DocumentMut::to_string() must equal the renderer's own normalisation of the input byte for byte; all modes: output valid, same data, every uniquely marked comment kept, fixed point. Known finding F11 is excluded by construction in the exact run and exercised by a probe run and six fixtures under a token-level signature.",
+   note="normalisation computed by the renderer and cross-checked with a reference-based normaliser (exit 2 on disagreement)",
+   design="4/C03"),
+ "C09": dict(
+   technique="exhaustive small-scope enumeration of statement sequences against a reference state machine of the definition rules; plus proptest random longer sequences",
+   text="Every sequence of <= 3 (quick) / 4 (thorough) statements out of 98 over paths <= 3 on {a,b}, a second scope on {a,b,c}, every inline table in a stated scope, plus 100k/3M random sequences of 5-12 statements: verdict and merged tree (order included) must equal those of the reference definition rules. Exhaustive inside the stated scope.",
+   note="trusts the transition table of DESIGN.md Appendix A as implemented in tomlref (calibrated on the toml-test fixtures); U1.b sequences skipped and counted",
+   design="4/C09, Appendix A"),
  "C10": dict(
    technique="exhaustive small-scope enumeration of strings + proptest random strings; round-trip oracle through library parser and independent reference decoder",
    text="Exhaustive over all strings of length <= 5 (quick) / 6 (thorough) on a 14-class alphabet, plus 100k/2M random long strings: every offered quoting style must parse (alone and in 6 document positions) and decode to the original, by the library and by the reference decoder. Exhaustive inside the stated scope, sampled beyond it.",
